@@ -91,15 +91,19 @@ impl Prop for C12 {
         v
     }
     fn generate(&self, rng: &mut Rng, _tier: Tier, _index: u64) -> Vec<String> {
-        let interval = match rng.below(4) {
+        let interval = match rng.below(5) {
             0 => rng.range(1, 3),
             1 => rng.range(4, 40),
             2 => rng.range(100, 100_000),
-            _ => 1_000_000,
+            3 => 1_000_000,
+            // the converter's default off-cpu interval and very large intervals
+            _ => *rng.pick(&[1_000_000u64, 250_000, 1 << 33, u32::MAX as u64, (1 << 40) + 7]),
         };
         let len = if rng.chance(1, 10) { rng.range(200, 1000) } else { rng.range(1, 60) };
-        let scale = *rng.pick(&[1u64, 1, 3, interval, interval / 2 + 1, interval * 3]);
-        let mut t = rng.below(1000);
+        // time steps: around the interval, thousands of intervals (many off-cpu samples per group), and
+        // gaps beyond 2^32 ns / timestamps near 2^62
+        let scale = *rng.pick(&[1u64, 1, 3, interval, interval / 2 + 1, interval * 3, interval * 5000, 1 << 34, 1 << 45]);
+        let mut t = if rng.chance(1, 12) { (1u64 << 62) + rng.below(1000) } else { rng.below(1000) };
         let mut ops = vec![format!("interval {interval}")];
         for _ in 0..len {
             let inc = match rng.below(5) {
@@ -160,8 +164,9 @@ impl Prop for C12 {
         out
     }
     fn nontrivial(&self, ops: &[String], out: &[String]) -> bool {
-        // at least one running gap accounted and one sleep closed
-        ops.len() >= 3 && out.iter().any(|l| l.starts_with("delta ") || l.starts_with("group "))
+        // a non-zero cpu delta was handed out or an off-cpu group was emitted
+        ops.len() >= 3
+            && out.iter().any(|l| (l.starts_with("delta ") && l != "delta 0") || (l.starts_with("group ") && l != "group none"))
     }
 }
 
